@@ -10,9 +10,16 @@ import (
 
 // C10: no application handler runs before the capabilities exchange succeeds.
 
+// zzIDs: symbolic non-zero identifiers (zero identifiers are the subject of C16 / zzC11_cer / zzC13_dwr;
+// excluding them here avoids a four-way split inside every Answer call of a history)
+func zzIDs(m *diam.Message) {
+	m.Header.HopByHopID, m.Header.EndToEndID = vU32("hbh"), vU32("e2e")
+	vAssume(m.Header.HopByHopID != 0 && m.Header.EndToEndID != 0)
+}
+
 func zzCER(appID uint32, inband uint32, withInband bool) *diam.Message {
 	m := diam.NewRequest(diam.CapabilitiesExchange, 0, dict.Default)
-	m.Header.HopByHopID, m.Header.EndToEndID = vU32("hbh"), vU32("e2e")
+	zzIDs(m)
 	m.NewAVP(avp.OriginHost, avp.Mbit, 0, datatype.DiameterIdentity("peer.example"))
 	m.NewAVP(avp.OriginRealm, avp.Mbit, 0, datatype.DiameterIdentity("peers"))
 	m.NewAVP(avp.HostIPAddress, avp.Mbit, 0, datatype.Address([]byte{10, 0, 0, 1}))
@@ -27,7 +34,7 @@ func zzCER(appID uint32, inband uint32, withInband bool) *diam.Message {
 
 func zzDWR() *diam.Message {
 	m := diam.NewRequest(diam.DeviceWatchdog, 0, dict.Default)
-	m.Header.HopByHopID, m.Header.EndToEndID = vU32("hbh"), vU32("e2e")
+	zzIDs(m)
 	m.NewAVP(avp.OriginHost, avp.Mbit, 0, datatype.DiameterIdentity("peer.example"))
 	m.NewAVP(avp.OriginRealm, avp.Mbit, 0, datatype.DiameterIdentity("peers"))
 	if zzFlag("dwrOriginState") {
@@ -41,7 +48,8 @@ func zzAppMsg(code uint32, app uint32, request bool) *diam.Message {
 	if request {
 		flags = diam.RequestFlag
 	}
-	m := diam.NewMessage(code, flags, app, vU32("hbh"), vU32("e2e"), dict.Default)
+	m := diam.NewMessage(code, flags, app, 1, 1, dict.Default)
+	zzIDs(m)
 	m.NewAVP(avp.SessionID, avp.Mbit, 0, datatype.UTF8String("s;1"))
 	return m
 }
@@ -93,9 +101,17 @@ func zzC10_gate() {
 		kind := vChoice("msg", 9)
 		switch kind {
 		case 0, 3: // acceptable CER (3: retransmission of an earlier CER -- same shape)
+			lost := !handshaken && zzFlag("ceaWriteFails")
+			if lost {
+				c.failWrites = 1
+			}
 			st.ServeDIAM(c, zzCER(4, 0, true))
 			vAssert(len(fired) == before, "CER is processed by the built-in handler, never by an application handler")
-			if !handshaken {
+			if lost {
+				// the success CEA never reached the peer: the exchange has not succeeded
+				vAssert(len(c.written) == wrote, "nothing was written")
+				c.failWrites = 0
+			} else if !handshaken {
 				a := zzLastAnswer(c)
 				vAssert(len(c.written) == wrote+1 && a != nil, "CER is answered")
 				if a != nil {
@@ -160,4 +176,28 @@ func zzExpect(fired []int, before int, handshaken bool, id int) {
 	} else {
 		vAssert(len(fired) == before, "no application handler runs before the capabilities exchange succeeds")
 	}
+}
+
+// zzC13_dwr: one DWR with unconstrained identifiers (zero included) after a handshake.
+func zzC13_dwr() {
+	st := New(zzSettings(true))
+	c := &zzConn{local: "192.0.2.77:3868"}
+	st.ServeDIAM(c, zzCER(4, 0, true))
+	_, ok := smpeer.FromContext(c.Context())
+	vAssume(ok)
+	req := diam.NewRequest(diam.DeviceWatchdog, 0, dict.Default)
+	req.Header.HopByHopID, req.Header.EndToEndID = vU32("dhbh"), vU32("de2e")
+	req.NewAVP(avp.OriginHost, avp.Mbit, 0, datatype.DiameterIdentity("peer.example"))
+	req.NewAVP(avp.OriginRealm, avp.Mbit, 0, datatype.DiameterIdentity("peers"))
+	wrote := len(c.written)
+	st.ServeDIAM(c, req)
+	a := zzLastAnswer(c)
+	vAssert(len(c.written) == wrote+1 && a != nil, "a DWR from a handshaken peer is answered")
+	if a != nil {
+		rc, _ := zzU32AVP(a, avp.ResultCode)
+		vAssert(rc == diam.Success && a.Header.CommandCode == diam.DeviceWatchdog && a.Header.CommandFlags&diam.RequestFlag == 0, "with a success DWA")
+		vAssert(a.Header.HopByHopID == req.Header.HopByHopID && a.Header.EndToEndID == req.Header.EndToEndID, "carrying the request's identifiers (zero included)")
+		vAssert(a.Header.CommandFlags&diam.ProxiableFlag == req.Header.CommandFlags&diam.ProxiableFlag, "proxiable bit unchanged")
+	}
+	vReach("C13_dwr")
 }
